@@ -1,7 +1,57 @@
-(* placeholder until the codec theorems land *)
+(* C17 - deterministic in the supplied randomness, and every random value is fresh.  Statements only.
+   Determinism is definitional (every operation of the model is a Gallina function of its arguments and
+   the tape; the correspondence check compares the crate with it byte for byte, including tape positions).
+   The content proved here is the tape LAYOUT: which range each random value is taken from, that ranges
+   are consecutive and disjoint, that nonces / seeds / the fake masking key are copies of their range and
+   key pairs are the key derivation of theirs, and that nothing else is read. *)
 From Coq Require Import List.
-From OKE Require Import BytesLemmas.
-Theorem C17_placeholder : forall l x y px py r1 r2,
-  Bytes.lenprefix l x = Some px -> Bytes.lenprefix l y = Some py -> px ++ r1 = py ++ r2 -> x = y /\ r1 = r2.
-Proof. exact lenprefix_inj. Qed.
-Print Assumptions C17_placeholder.
+From OKE Require Import Bytes Suite Generated Voprf Messages Envelope TripleDH Opaque TapeLayout.
+
+Theorem C17_setup_layout :
+  forall E Sc Pk Sk (CS : Suite E Sc Pk Sk) tape setup rest,
+    server_setup_new CS tape = Ok (setup, rest) ->
+    exists s1 seed s2,
+      tape = s1 ++ seed ++ s2 ++ rest /\
+      length s1 = k_Nsk (ke CS) /\ length seed = h_len (hash CS) /\ length s2 = k_Nsk (ke CS) /\
+      ss_oprf_seed setup = seed /\
+      k_derive (ke CS) (hash CS) (o_id (oprf CS)) s1 = Some (kp_sk (ss_keypair setup)) /\
+      k_derive (ke CS) (hash CS) (o_id (oprf CS)) s2 = Some (kp_sk (ss_fake_keypair setup)).
+Proof. exact @server_setup_new_layout. Qed.
+Print Assumptions C17_setup_layout.
+
+Theorem C17_envelope_nonce_layout :
+  forall E Sc Pk Sk (CS : Suite E Sc Pk Sk) tape rp spk ids env cpk ek rest,
+    envelope_seal CS tape rp spk ids = Ok (env, cpk, ek, rest) ->
+    tape = env_nonce env ++ rest /\ length (env_nonce env) = ENVELOPE_NONCE_LEN.
+Proof. exact @envelope_seal_layout. Qed.
+Print Assumptions C17_envelope_nonce_layout.
+
+Theorem C17_client_key_share_layout :
+  forall E Sc Pk Sk (CS : Suite E Sc Pk Sk) tape st m rest,
+    generate_ke1 CS tape = Ok (st, m, rest) ->
+    exists seed, tape = seed ++ k1_nonce m ++ rest /\ length seed = k_Nsk (ke CS) /\ length (k1_nonce m) = KE_NONCE_LEN /\
+      k_derive (ke CS) (hash CS) (o_id (oprf CS)) seed = Some (k1s_client_e_sk st) /\
+      k1_client_e_pk m = k_pub (ke CS) (k1s_client_e_sk st) /\ k1s_nonce st = k1_nonce m.
+Proof. exact @generate_ke1_layout. Qed.
+Print Assumptions C17_client_key_share_layout.
+
+Theorem C17_server_login_layout :
+  forall E Sc Pk Sk (CS : Suite E Sc Pk Sk) S (SK : SkOps Pk S) tape setup file rq cred ctx ids st resp rest dbg,
+    server_login_start CS SK tape setup file rq cred ctx ids = Ok (st, resp, rest, dbg) ->
+    exists fmk eseed,
+      tape = fmk ++ cr_masking_nonce resp ++ eseed ++ k2_nonce (cr_ke2 resp) ++ rest /\
+      length fmk = (match file with Some _ => 0 | None => h_len (hash CS) end) /\
+      length (cr_masking_nonce resp) = KE_NONCE_LEN /\ length eseed = k_Nsk (ke CS) /\
+      length (k2_nonce (cr_ke2 resp)) = KE_NONCE_LEN /\
+      (exists esk, k_derive (ke CS) (hash CS) (o_id (oprf CS)) eseed = Some esk /\
+                   k2_server_e_pk (cr_ke2 resp) = k_pub (ke CS) esk).
+Proof. exact @server_login_start_layout. Qed.
+Print Assumptions C17_server_login_layout.
+
+Theorem C17_fake_masking_key_from_tape :
+  forall E Sc Pk Sk (CS : Suite E Sc Pk Sk) tape S (setup : ServerSetup Pk Sk S) rec rest,
+    registration_upload_dummy CS tape setup = Ok (rec, rest) ->
+    tape = ru_masking_key rec ++ rest /\ length (ru_masking_key rec) = h_len (hash CS) /\
+    ru_client_s_pk rec = kp_pk (ss_fake_keypair setup) /\ ru_envelope rec = envelope_dummy CS.
+Proof. exact @fake_masking_key_is_tape. Qed.
+Print Assumptions C17_fake_masking_key_from_tape.
